@@ -842,12 +842,20 @@ theorem applyAct_pres (s : State) (fh fw : List Nat) (a : Act) : s.Pres (applyAc
           split
           · refine Pres.trans ?_ (Mv.push _ _ rfl).pres
             refine Pres.trans ?_ (Mv.emit _ _ rfl rfl).pres
-            have hk := Keep.cloneHandles s v
-            refine Pres.trans hk.pres ?_
-            exact alloc_fresh (s := s.cloneHandles v)
-              (ob := { strong := .cnt 1, weak := 1, links := some [], value := some { v with vid := s.nextVid },
-                       freed := false })
-              rfl rfl rfl rfl rfl hk.nextVid.symm (by rw [hk.nextVid])
+            by_cases hsh : v.shallow = true
+            · simp only [if_pos hsh]
+              exact alloc_fresh (s := s)
+                (ob := { strong := .cnt 1, weak := 1, links := some [],
+                         value := some { v with vid := s.nextVid, held := [], weaks := [] },
+                         freed := false })
+                rfl rfl rfl rfl rfl rfl rfl
+            · simp only [if_neg hsh]
+              have hk := Keep.cloneHandles s v
+              refine Pres.trans hk.pres ?_
+              exact alloc_fresh (s := s.cloneHandles v)
+                (ob := { strong := .cnt 1, weak := 1, links := some [], value := some { v with vid := s.nextVid },
+                         freed := false })
+                rfl rfl rfl rfl rfl hk.nextVid.symm (by rw [hk.nextVid])
           · split
             · apply Mv.pres
               refine Mv.trans ?_ (Mv.emit _ _ rfl rfl)
@@ -889,6 +897,7 @@ theorem applyAct_pres (s : State) (fh fw : List Nat) (a : Act) : s.Pres (applyAc
       · mv_tac
     · mv_tac
   | setPanic q => simp only [applyAct]; split <;> mv_tac
+  | setShallow q => simp only [applyAct]; split <;> mv_tac
   | upgradeField k =>
     simp only [applyAct]; split
     · exact upgrade_like s _
